@@ -510,6 +510,18 @@ func (o *opCtx) exec(kind, k int) string {
 				break
 			}
 		}
+		// the same backing arrays again after the caller replaced an interior term in place, against fresh copies
+		if n >= 3 {
+			pts[n/2], sc[n/2] = pts[0], sc[n-1]
+			again, err1 := ipa.MultiScalar(pts, sc)
+			fresh, err2 := ipa.MultiScalar(append([]banderwagon.Element(nil), pts...), append([]fr.Element(nil), sc...))
+			d.elem(&again)
+			if err1 != nil || err2 != nil || !again.Equal(&fresh) {
+				o.modified("result-depends-on-history/MultiScalar", fmt.Sprintf("ipa.MultiScalar on %d-element slices whose interior term was replaced in place since the previous call differs from the same call on fresh copies", n))
+			}
+			copy(snapP, pts)
+			copy(snapS, sc)
+		}
 		if !frEq(sc, snapS) || !pChk() || !sChk() {
 			o.modified("input-modified/MultiExp/scalars", "MultiExp changed the caller's scalars (or wrote into the spare capacity of points/scalars)")
 		}
